@@ -53,7 +53,7 @@ class Source:
                 self.normalised = normalize.normalise(rel, self.tree, localnames.table().get(rel, {}).get("__inventory__"))
                 # ... and renames of local variables (localnames.py), then temporaries the reference did not have
                 self.renamed = localnames.recover(rel, self.tree)
-                n_t = normalize.inline_new_temps(self.tree, localnames.table().get(rel, {}))
+                n_t = normalize.inline_new_temps(self.tree, localnames.table().get(rel, {})) if localnames.table().get(rel) else 0
                 if n_t:
                     self.normalised["temporaries"] = n_t
                     normalize.finish(self.tree)
